@@ -59,7 +59,10 @@ func runAlg(c *eng.Ctx, ac algCfg) {
 	var bg bgv.Parameters
 	hasBgv := ac.Ring == "std"
 	if hasBgv {
-		t := gen.Primes(ac.LogN+6, nth, 1, gen.PosAbove, nil)
+		var t []uint64
+		for b := ac.LogN + 3; len(t) == 0 && b < 40; b++ {
+			t = gen.Primes(b, nth, 1, gen.PosAbove, nil)
+		}
 		if bg, err = bgv.NewParametersFromLiteral(bgv.ParametersLiteral{LogN: ac.LogN, Q: q, PlaintextModulus: t[0]}); err != nil {
 			c.Violate("C11|bgv.NewParametersFromLiteral|error-on-admissible", err.Error(), ac)
 			return
